@@ -127,6 +127,11 @@ SignedOk(signed, hdrs, cfg) ==
           StartsWith(n, LowerSeq(cfg.prefix[i])) => HasElem(signed, n)
 
 ------------------------------------------------------------------------------
+\* canonical request up to (not including) the payload hash
+CReqPreOf(env, cpath, cquery, signed) ==
+    env.method \o <<LF>> \o cpath \o <<LF>> \o cquery \o <<LF>>
+      \o HeaderBlock(env.hdrs, signed) \o <<LF>> \o SignedLine(signed) \o <<LF>>
+
 \* plusPath = FALSE: the reference.  TRUE: the library's known reading of '+' in paths (D7).
 QG0(env, cfg, plusPath) ==
     LET pathR == CanonPathG(env.path, cfg.s3, plusPath) IN
@@ -142,7 +147,9 @@ QG0(env, cfg, plusPath) ==
         label    == NormLabel(cs[2])
     IN
     \* ---- form folding ("rule 4b")
-    IF isForm /\ cs[1] /\ label \in OtherKnownLabels THEN [err |-> NoErr, dc |-> TRUE]   \* statement silent
+    IF cfg.fold /\ hasCT /\ ~isForm /\ LowerSeq(MediaType(ct)) = bFormType
+       THEN [err |-> NoErr, dc |-> TRUE]                    \* media type in another letter case: statement silent
+    ELSE IF isForm /\ cs[1] /\ label \in OtherKnownLabels THEN [err |-> NoErr, dc |-> TRUE]   \* statement silent
     ELSE IF isForm /\ cs[1] /\ label \notin Utf8Labels THEN [err |-> Err(3, "InvalidBodyEncoding"), dc |-> FALSE]
     ELSE IF isForm /\ ~Utf8Valid(env.body) THEN [err |-> Err(3, "InvalidBodyEncoding"), dc |-> FALSE]
     ELSE IF isForm /\ ~QueryOk(env.body) THEN [err |-> Err(3, "MalformedQueryString"), dc |-> FALSE]
@@ -183,8 +190,7 @@ QG0(env, cfg, plusPath) ==
     LET inst  == tp.inst
         tsdc  == tp.class = "dontcare"      \* may also be refused with the rule-9 error
         parts == SplitOn(ap.cred, SLASH)
-        creqPre(cpath) == env.method \o <<LF>> \o cpath \o <<LF>> \o cquery \o <<LF>>
-                          \o HeaderBlock(hdrs, ap.signed) \o <<LF>> \o SignedLine(ap.signed) \o <<LF>>
+        creqPre(cpath) == CReqPreOf(env, cpath, cquery, ap.signed)
         c3 == c2 @@ [inst |-> inst, tsdc |-> tsdc, creqPres |-> {creqPre(p) : p \in cpaths}]
     IN
     \* ---- rules 10, 11
